@@ -138,6 +138,23 @@ def walk_with_lambdas(fn):
         stack.extend(reversed(list(ast.iter_child_nodes(cur))))
 
 
+def decision_key(fn, node):
+    """Canonical text of a decision, read with the positive operator: the same
+    decision spelled ``a != b`` (guard style) or ``a == b`` (nested style) has
+    one key."""
+    pos = {ast.NotEq: ast.Eq, ast.NotIn: ast.In, ast.IsNot: ast.Is}
+    swapped = []
+    for sub in ast.walk(node):
+        if isinstance(sub, ast.Compare) and len(sub.ops) == 1 and type(sub.ops[0]) in pos:
+            swapped.append((sub, sub.ops))
+            sub.ops = [pos[type(sub.ops[0])]()]
+    try:
+        return canon(fn).key(node)
+    finally:
+        for sub, ops in swapped:
+            sub.ops = ops
+
+
 def identity_decisions(cg, reach, labels):
     """(fid, fn, mod, node, components, via_label) for every residue-identity
     decision in reachable code: comparisons, membership tests and dictionary
@@ -206,7 +223,7 @@ def run(ctx):
     for fid, fn, mod, node, comps, via_label in identity_decisions(cg, reach, labels):
             n_dec += 1
             missing = RESIDUE_KEY - comps
-            key = 'decision:%s.%s:%s' % (fid[0], fid[1], canon(fn).key(node)[:140])
+            key = 'decision:%s.%s:%s' % (fid[0], fid[1], decision_key(fn, node)[:140])
             if missing:
                 key += ':missing=' + '+'.join(sorted(missing))
             ctx.ob('C06.R1', key, not missing,
